@@ -3,7 +3,7 @@ from . import register
 
 register(
     "C02",
-    lean_modules=["GtModel.Props.C02"],
+    lean_modules=["GtModel.Props.C02", "GtModel.Props.C02x"],
     theorems=[
         "GtModel.C02.zero_cost_iff_eq",
         "GtModel.C02.eq_zero_cost",
@@ -15,17 +15,36 @@ register(
         "GtModel.C02.exit_status_iff",
         "GtModel.lev_eq_zero_iff",
         "GtModel.strEdits_cost_zero_iff",
+        # XML / HTML elements (model GtModel.Xml.xmlEdits, stream scriptxml)
+        "GtModel.C02.xml_zero_cost_iff_eq",
+        "GtModel.C02.xml_eq_zero_cost",
+        "GtModel.C02.xml_eq_symm",
+        "GtModel.C02.xml_build_WF",
+        "GtModel.C02.xml_eq_iff_dataEq",
+        "GtModel.C02.xml_zero_cost_iff_dataEq",
+        "GtModel.C02.xml_pos_atom_of_pos_cost",
+        "GtModel.C02.xml_positive_edit_exists",
+        "GtModel.C02.xml_exit_status_iff",
+        "GtModel.C02.xml_tail_ignored",
+        "GtModel.C02.xml_text_whitespace_charged",
     ],
-    streams=["script", "scriptx", "cli"],
+    streams=["script", "scriptx", "scriptxml", "cli"],
     assumptions=[
         "objects of the compared documents have distinct keys (Doc.distinctKeys; what json/yaml parsers deliver); "
         "without it graphtage's DictNode equality is multiset equality of pairs and the statement is not claimed",
         "float leaves are opaque tokens compared by their str(); numerically equal int/float pairs are outside the model's domain",
         "the script is the fully refined one (all bounds tightened), as dumped by the script stream",
+        "XML / HTML (xml_* theorems): every element has pairwise distinct attribute names (XDoc.wf; a duplicated "
+        "attribute is a well-formedness error for every XML parser); equality is graphtage's: text modulo "
+        "surrounding white space with absent = empty, and the text FOLLOWING a child element (ElementTree tail) is not "
+        "part of the tree at all — defect D23, Lean witness xml_tail_ignored; xml_zero_cost_iff_dataEq is the "
+        "strongest true statement (equality as data ignoring tails)",
     ],
     trusted=[
         "script stream: model output (script, eq, sizes) == real graphtage on every generated case",
+        "scriptxml stream: GtModel.Xml.xmlEdits output (script, eq, sizes) == real graphtage on XML / HTML elements; "
+        "the white-space table of str.strip() is compared exhaustively over all code points (thorough tier)",
         "the assignment solver's answers enter as an oracle; theorems hold for every oracle",
     ],
-    partial="",
+    partial="XML/HTML: cost 0 <=> equal holds only for the data build_tree keeps; tail text is dropped (D23, known finding)",
 )
